@@ -109,6 +109,11 @@ pub enum CltvSel {
     MaxMinus1,
     Max,
     Zero,
+    /// an in-range distance plus k * 2^16 blocks (far outside the window; catches arithmetic on
+    /// the distance in a narrower type)
+    MidPlusWrap16(u8),
+    /// already expired: d blocks below the current height
+    Past(u8),
 }
 
 #[derive(Clone, Debug, Serialize, Deserialize, PartialEq, Eq, Hash)]
@@ -199,6 +204,7 @@ fn cltv_strat() -> impl Strategy<Value = CltvSel> {
     prop_oneof![
         6 => Just(CltvSel::Mid), 1 => Just(CltvSel::LowMinus1), 1 => Just(CltvSel::Low), 1 => Just(CltvSel::High), 1 => Just(CltvSel::HighPlus1),
         1 => Just(CltvSel::MaxMinus1), 1 => Just(CltvSel::Max), 1 => Just(CltvSel::Zero),
+        1 => (1u8..4).prop_map(CltvSel::MidPlusWrap16), 1 => prop_oneof![Just(1u8), Just(2u8), Just(144u8)].prop_map(CltvSel::Past),
     ]
 }
 
@@ -551,6 +557,8 @@ fn run_bounds(case: &Case, st: &mut CaseStats, ctx: &Ctx) -> Result<(), Violatio
                 CltvSel::MaxMinus1 => 499_999_999,
                 CltvSel::Max => 500_000_000,
                 CltvSel::Zero => 0,
+                CltvSel::MidPlusWrap16(k) => (lo + (hi - lo) / 2).saturating_add(*k as u32 * 65_536).min(499_999_999),
+                CltvSel::Past(d) => height.saturating_sub(*d as u32),
             }
         };
         // HTLCs from the node's point of view (offered = outgoing)
